@@ -274,7 +274,10 @@ def _views(ctx, o, order='fwd', skip=()):
             getters += [('vertices', lambda: [[v.id, v.uv, v.data] for v in o.vertices]),
                         ('faces', lambda: [[f.id, f.data] for f in o.faces])]
     getters = [(name, g) for name, g in getters if name not in skip]
-    seq = getters if order == 'fwd' else list(reversed(getters))
+    if order == 'wfirst':       # the weights before anything that would refresh the caches on its way
+        seq = [g for g in getters if g[0] == 'weights'] + [g for g in getters if g[0] != 'weights']
+    else:
+        seq = getters if order == 'fwd' else list(reversed(getters))
     got = {}
     for name, g in seq:
         got[name] = _snap(g())
@@ -323,7 +326,7 @@ def _inv(ctx, o, label, order='fwd', lazy_bbox=False):
     evaluate_bounding_box(self.ctrlpts) exactly as fresh(o) does on an equal `ctrlpts` view (which is compared), so
     the read is left out; a non-empty cache is read and compared as usual."""
     skip = ()
-    if lazy_bbox and ctx.mode == 'sym' and _bbox_cache_empty(o):
+    if lazy_bbox and _bbox_cache_empty(o):          # same reads in the exact run and in the native replay
         ctx.ok(label + '.bbox(cache empty: recomputed from the compared ctrlpts view)')
         skip = ('bbox',)
     vo = _views(ctx, o, order, skip=skip)
@@ -599,6 +602,11 @@ def _mut_instances(tier):
                 out.append(dict(kind=kname, mut=m, state=state))
                 if tier == 'thorough' and state == 'filled':
                     out.append(dict(kind=kname, mut=m, state=state, order='rev'))
+            # the views are read in the opposite order after the edit (weights before ctrlpts ...): a cache entry that the
+            # edit left behind is then served before the getter that would have refreshed it runs
+            if kname not in CONTAINERS and KINDS[kname]['rat']:
+                out.append(dict(kind=kname, mut=m, state='filled', post='rev'))
+                out.append(dict(kind=kname, mut=m, state='filled', post='wfirst'))
     return out
 
 
@@ -617,7 +625,7 @@ def _mut_instances(tier):
                       'multi.VolumeContainer.delta_u', 'multi.VolumeContainer.sample_size_u',
                       'multi.SurfaceContainer.tessellate'],
           quick=lambda: _mut_instances('quick'), thorough=lambda: _mut_instances('thorough'))
-def mutator_preserves_inv(ctx, kind, mut, state, order='fwd'):
+def mutator_preserves_inv(ctx, kind, mut, state, order='fwd', post='fwd'):
     """requires Inv(o): o freshly built; state 'filled': every view read once (in `order`) and Inv re-checked
        ensures  Inv(o) after the one public mutator `mut`"""
     o = _build(ctx, kind, drop_knot=(mut == 'remove_knot'))
@@ -636,7 +644,7 @@ def mutator_preserves_inv(ctx, kind, mut, state, order='fwd'):
             o.remove_knot(u=x)
     else:
         MUTATORS[mut](ctx, o)
-    _inv(ctx, o, 'inv', lazy_bbox=mut in LAZY_BBOX)
+    _inv(ctx, o, 'inv', order=post, lazy_bbox=mut in LAZY_BBOX)
 
 
 def _reader_instances():
